@@ -4,11 +4,17 @@ mod sx;
 mod unicode;
 mod valsuite;
 mod ext;
+mod astser;
+mod execsuite;
 
 use std::io::{BufRead, Write};
 use sx::Sx;
 
 pub const SIZE_BUDGET: u64 = 1048576;
+
+fn case_timeout_secs() -> u64 {
+    std::env::var("VERIF_CASE_TIMEOUT").ok().and_then(|s| s.parse().ok()).unwrap_or(10)
+}
 
 fn run_case(line: &str) -> String {
     let sx = match sx::parse(line) {
@@ -23,11 +29,15 @@ fn run_case(line: &str) -> String {
     let id = items[1].atom().unwrap_or("?").to_string();
     let op = items[2].atom().unwrap_or("?").to_string();
     let args: Vec<Sx> = items[3..].to_vec();
+    let (tx, rx) = std::sync::mpsc::channel();
+    let builder = std::thread::Builder::new().stack_size(256 * 1024 * 1024);
+    let handle = builder.spawn(move || {
     let r = std::panic::catch_unwind(move || -> Result<String, String> {
         match suite.as_str() {
             "val" => valsuite::run_val(&op, &args),
             "f64" => valsuite::run_f64(&op, &args),
             "uni" => unicode::run_uni(&op, &args),
+            "exec" => execsuite::run_exec(&op, &args),
             _ => ext::run(&suite, &op, &args),
         }
     });
@@ -35,6 +45,15 @@ fn run_case(line: &str) -> String {
         Ok(Ok(t)) => t,
         Ok(Err(e)) => format!("harness-error {}", e),
         Err(_) => "panic".to_string(),
+    };
+    let _ = tx.send(text);
+    });
+    let text = match handle {
+        Err(_) => "harness-error spawn".to_string(),
+        Ok(_) => match rx.recv_timeout(std::time::Duration::from_secs(case_timeout_secs())) {
+            Ok(t) => t,
+            Err(_) => "timeout".to_string(),
+        },
     };
     format!("{}\t{}", id, text)
 }
@@ -54,9 +73,12 @@ fn main() {
                 let line = line.expect("read");
                 if line.starts_with('(') {
                     writeln!(out, "{}", run_case(&line)).unwrap();
+                    out.flush().unwrap();
                 }
             }
             out.flush().unwrap();
+            // abandoned (timed-out) threads must not keep the process alive
+            std::process::exit(0);
         }
         _ => {
             eprintln!("usage: harness run <cases> [<out>] | unicode-dump");
